@@ -262,10 +262,8 @@ impl Client {
         let t = self.now_ms();
         self.out.sent.insert(id, SentReq { method: method.to_string(), kind, seq, t_ms: t });
         let mut msg = proto::request(id, method, params);
-        if proto::string_id(id) {
-            if let Message::Request(r) = &mut msg {
-                r.id = format!("s{id}").into();
-            }
+        if let (Message::Request(r), Value::String(sid)) = (&mut msg, proto::wire_id(id)) {
+            r.id = sid.into();
         }
         self.send(msg);
     }
@@ -282,9 +280,9 @@ impl Client {
             self.out.history.push(HEvent { t_ms: t, dir: Dir::S2C, msg: msg.clone() });
             match msg {
                 Message::Response(resp) => {
-                    let id = match resp.id.to_string().trim_matches('"').trim_start_matches('s').parse::<i32>() {
-                        Ok(i) => i,
-                        Err(_) => {
+                    let id = match proto::internal_id(&resp.id.to_string()) {
+                        Some(i) => i,
+                        None => {
                             self.out.alien_responses.push(resp);
                             continue;
                         }
@@ -636,11 +634,18 @@ impl Client {
                     "fault.cancel_pending_request"
                 };
                 self.count(state);
-                if proto::string_id(*id) {
-                    self.send(proto::notification("$/cancelRequest", json!({"id": format!("s{id}")})));
-                } else {
-                    self.send(proto::notification("$/cancelRequest", json!({"id": id})));
+                let mut wire = proto::wire_id(*id);
+                if id % 5 == 4 {
+                    // a cancellation under the *other* representation of the same digits: it names
+                    // another id (nothing, or the twin request), never this one
+                    self.count("fault.cancel_other_id_representation");
+                    wire = match wire {
+                        Value::Number(n) => Value::from(n.to_string()),
+                        Value::String(t) => t.parse::<i64>().map(Value::from).unwrap_or(Value::String(t)),
+                        other => other,
+                    };
                 }
+                self.send(proto::notification("$/cancelRequest", json!({"id": wire})));
             }
             Action::ChangeConfig { version } => {
                 self.cfg_version = *version;
